@@ -167,14 +167,12 @@ func (r *qLogReader) seekRecord(ctx context.Context, olderThan time.Time) (err e
 		return r.SeekStart()
 	}
 
-	err = r.seekTS(ctx, olderThan.UnixNano())
-	if err == nil {
-		// Read to the next record, because we only need the one that goes
-		// after it.
-		_, err = r.ReadNext()
-	}
-
-	return err
+	// Don't skip the record at the resulting position.  If a record with this
+	// timestamp has been found, it is discarded by [searchParams.match] just
+	// like all the newer ones.  But if the timestamp is later than all the
+	// records, the position is at the newest record, which is older than the
+	// parameter and must not be lost.
+	return r.seekTS(ctx, olderThan.UnixNano())
 }
 
 // setQLogReader creates a reader with the specified files and sets the
